@@ -29,6 +29,9 @@
                                   binds every id of a uniform condition.
   Multiplicities of other combinations (disjunctions, overlapping collections) are covered by the correspondence check.  (`or_` over a repeated element inside ONE collection suppresses the
   duplicate: set equality only — measured, see DESIGN.)
+    c16_same_element_twice / c16_pred_same_element   two arguments that are the SAME flatten node are the same element
+                          (the second is read from the binding the first made), so a predicate P(e, e) is decided on
+                          (e, e) and never pairs an element with a sibling - under every incoming binding
 -/
 import EqlModel.Lemmas.Closed
 import EqlModel.Lemmas.Flat
@@ -361,5 +364,48 @@ example :
   · simp [Cond.shaped, Terms.shaped, Term.shaped]
   · simp [Terms.shaped, Term.shaped]
   · simp [Cond.uniformB, Cond.binds, Terms.binds, Term.binds]
+
+/-- Every output of a flatten node carries the node's own binding: the element it yields. -/
+theorem flatten_binds_self (id : VarId) (t : Term V) (β : Bnd V) :
+    ∀ p ∈ evalTerm W D (.flatten id t) β, p.1.lookup id = some p.2 := by
+  intro p hp
+  simp only [evalTerm] at hp
+  cases hl : β.lookup id with
+  | some a =>
+    rw [hl] at hp
+    simp only [List.mem_singleton] at hp
+    subst hp; exact hl
+  | none =>
+    rw [hl] at hp
+    simp only [List.mem_flatMap, List.mem_map] at hp
+    obtain ⟨q, _, e, _, rfl⟩ := hp
+    exact lookup_cons_self _ _ _
+
+/-- **C16, the same flattened element used twice.**  Two arguments that are the SAME flatten node
+    (`P(e, e)` with `e = flatten(p.items)`) are evaluated one after the other, the second under the
+    binding the first one made: it is the same element, never a sibling - under every incoming binding. -/
+theorem c16_same_element_twice (id : VarId) (t : Term V) (β : Bnd V) :
+    evalArgs W D [.flatten id t, .flatten id t] β =
+      (evalTerm W D (.flatten id t) β).map fun p => (p.1, [p.2, p.2]) := by
+  have hself := flatten_binds_self W D id t β
+  simp only [evalArgs]
+  generalize evalTerm W D (.flatten id t) β = outs at hself ⊢
+  induction outs with
+  | nil => rfl
+  | cons p ps ih =>
+    have hp : p.1.lookup id = some p.2 := hself p List.mem_cons_self
+    have hrest : ∀ q ∈ ps, q.1.lookup id = some q.2 := fun q hq => hself q (List.mem_cons_of_mem _ hq)
+    rw [List.flatMap_cons, ih hrest, List.map_cons]
+    simp [evalTerm, hp]
+
+/-- ... so a predicate over two arguments taken from one flattened element is decided on `(e, e)`:
+    one output per element (when false outputs are asked for), none that pairs an element with a sibling. -/
+theorem c16_pred_same_element (inv : Bool) (name : String) (id : VarId) (t : Term V) (β : Bnd V) :
+    evalCond W D (.pred inv name [.flatten id t, .flatten id t]) β true =
+      (evalTerm W D (.flatten id t) β).map fun p => (p.1, W.truthy (W.fn name [p.2, p.2]) == inv) := by
+  simp only [evalCond, c16_same_element_twice, Bool.or_true, if_true, List.flatMap_map]
+  induction evalTerm W D (.flatten id t) β with
+  | nil => rfl
+  | cons p ps ih => simp [ih]
 
 end Eql
